@@ -1252,6 +1252,45 @@ def run(R: Run):
                      f"{int(neq.sum())} of {neq.size} pixels differ between the pasted image and the GDAL nearest warp; "
                      f"roi_src={r.roi_src} roi_dst={r.roi_dst}", sig=f"noepsg|{tag}|{dt}")
 
+    # --- numerically IDENTICAL grids (same shape, same affine numbers) whose CRSs differ - or one side has no CRS at all:
+    #     paste-ability is reported only for same-CRS grids, never here; same numbers AND same CRS must paste
+    TWINS = [("EPSG:32755", "EPSG:32756", 30.0, (6.0e5, 6.1e6)), ("EPSG:32633", "EPSG:32634", 10.0, (4.2e5, 5.6e6)),
+             ("EPSG:4326", "EPSG:4283", 0.00025, (146.0, -36.0)), ("EPSG:4326", "EPSG:4269", 0.01, (-100.0, 40.0)),
+             ("EPSG:3857", "EPSG:3395", 100.0, (1.0e6, 5.0e6)), (c03.SINU_0, c03.SINU_15, 463.3127165, (1.0e6, 5.0e6)),
+             (c03.LAEA_A, c03.LAEA_B, 500.0, (4.0e6, 3.0e6)), ("EPSG:32755", None, 30.0, (6.0e5, 6.1e6)), (None, "EPSG:4326", 0.01, (10.0, 50.0)),
+             ("EPSG:32755", "EPSG:32755", 30.0, (6.0e5, 6.1e6)), (c03.LAEA_A, c03.LAEA_A, 500.0, (4.0e6, 3.0e6))]
+    for a, b, res_, (x0_, y0_) in TWINS:
+        for _ in range(R.pick(2, 8)):
+            shp = (rng.randint(4, 40), rng.randint(4, 40))
+            A_ = Affine(res_, 0, x0_ + res_ * rng.randint(-50, 50), 0, -res_, y0_ + res_ * rng.randint(-50, 50))
+            if rng.random() < 0.3:
+                A_ = A_ * Affine.scale(1, -1) * Affine.translation(0, -shp[0])  # south-up variant of the same footprint
+            ca, cb = (None if a is None else CRS(a)), (None if b is None else CRS(b))
+            hist = c03.prior_history(rng, ca, cb) if (ca is not None and cb is not None) else []
+            kw = rng.choice([{}, {}, {"padding": 0}, {"align": 0}, {"padding": None, "align": None}, {"ttol": 0.05, "stol": 1e-3}])
+            conv = rng.random() < 0.3
+            src_g, dst_g = gb(shp, A_, ca), gb(shp, A_, cb)
+            same = a is not None and a == b
+            case = {"fn": "compute_reproject_roi", "src_shape": shp, "dst_shape": shp, "src_affine": list(A_)[:6], "dst_affine": list(A_)[:6],
+                    "src_crs": a, "dst_crs": b, "history": hist, "positional": conv, "dtype": "int16", **kw}
+            try:
+                r = c03.call_plan(O, conv, src_g, dst_g, **kw)
+            except Exception as ex:  # pylint: disable=broad-except
+                # a raster without a CRS can not be related to one with a CRS: refusing is fine, pasting is not
+                R.oracle(a is None or b is None, "plan-raises", case, f"{type(ex).__name__}: {ex}", sig="twin|raises")
+                continue
+            tag = "same" if same else ("crs-less" if (a is None or b is None) else "diff")
+            R.oracle(same or not r.paste_ok, "paste-ok-for-different-crs", case,
+                     f"paste_ok for numerically identical grids in different CRSs ({a} vs {b})", sig=f"twin|{tag}|paste-sound")
+            R.oracle((r.transform.linear is not None) == same, "crs-sameness-misjudged", case,
+                     f"same CRS: {same}; planned as a same-CRS pair: {r.transform.linear is not None}", sig=f"twin|{tag}|sameness")
+            if same:
+                full = (slice(0, shp[0]), slice(0, shp[1]))
+                R.oracle(bool(r.paste_ok) and r.read_shrink == 1 and tuple(r.roi_src) == full and tuple(r.roi_dst) == full,
+                         "paste-rejected-within-tolerance", case,
+                         f"identical grids in one CRS: paste_ok={r.paste_ok} read_shrink={r.read_shrink} roi_src={r.roi_src} roi_dst={r.roi_dst}",
+                         sig="twin|same|pastes")
+
     # --- wide images with a scale residue within stol: pasted image != warp (known finding, own key)
     for (n, sc) in [(600, 1.0009), (rng.randint(700, 1500), 1 + rng.choice([-1, 1]) * rng.uniform(7e-4, 9.5e-4))]:
         sshape = dshape = (4, n)
@@ -1490,11 +1529,17 @@ def replay(R: Run, rec) -> int:
 
     ss, ds = tuple(case["src_shape"]), tuple(case["dst_shape"])
     S, D = Affine(*case["src_affine"]), Affine(*case["dst_affine"])
-    ca, cb = CRS(case.get("src_crs", case.get("crs", CRS0))), CRS(case.get("dst_crs", case.get("crs", CRS0)))
-    c03.apply_history(case.get("history", []), ca, cb)
+    mk_crs = lambda k_: None if (k_ in case and case[k_] is None) else CRS(case.get(k_, case.get("crs", CRS0)))  # noqa: E731
+    ca, cb = mk_crs("src_crs"), mk_crs("dst_crs")
+    if ca is not None and cb is not None:
+        c03.apply_history(case.get("history", []), ca, cb)
     src_g, dst_g = GeoBox(wh_(ss[1], ss[0]), S, ca), GeoBox(wh_(ds[1], ds[0]), D, cb)
-    r = c03.call_plan(O, case.get("positional", False), src_g, dst_g, ttol=case.get("ttol", 0.05), stol=case.get("stol", 1e-3),
-                      padding=case.get("padding"), align=case.get("align"))
+    try:
+        r = c03.call_plan(O, case.get("positional", False), src_g, dst_g, ttol=case.get("ttol", 0.05), stol=case.get("stol", 1e-3),
+                          padding=case.get("padding"), align=case.get("align"))
+    except Exception as ex:  # pylint: disable=broad-except
+        print("raises", type(ex).__name__, ex)
+        return 0 if (ca is None or cb is None) else 1
     if key in ("paste-ok-for-different-crs", "crs-sameness-misjudged"):
         print("paste_ok", r.paste_ok, "planned as same-CRS pair:", r.transform.linear is not None)
         return 1 if (r.paste_ok or r.transform.linear is not None) else 0
